@@ -17,6 +17,7 @@ class PathResult:
         self.helpers = None
         self.effects = []
         self.writes = {}         # pos -> list of writer kinds
+        self.reads = set()       # stack positions read
 
 
 class AbstractProcess:
@@ -30,6 +31,7 @@ class AbstractProcess:
         self.depth_gt16 = depth_gt16
         self.fresh = 0
         self.deep = deep          # None: single-row model; list: symbolic elements below position 15 (top first)
+        self.reads = set()        # stack positions read by the handler (Stack::get / peek)
 
     def begin_row(self):
         self.nxt = [None] * 16
@@ -63,8 +65,16 @@ def install(I, AP):
         return x
 
     # ---- stack --------------------------------------------------------------------------------
-    add(r"^miden_processor::stack::Stack::get$", lambda I, a, f: AP.cur[intarg(a[1], "Stack::get")])
-    add(r"^miden_processor::stack::Stack::peek$", lambda I, a, f: AP.cur[0])
+    def st_get(I, a, f):
+        k = intarg(a[1], "Stack::get")
+        AP.reads.add(k)
+        return AP.cur[k]
+    add(r"^miden_processor::stack::Stack::get$", st_get)
+
+    def st_peek(I, a, f):
+        AP.reads.add(0)
+        return AP.cur[0]
+    add(r"^miden_processor::stack::Stack::peek$", st_peek)
 
     def st_set(I, a, f):
         pos = intarg(a[1], "Stack::set")
@@ -291,6 +301,7 @@ def run_operation(F, variant, depth_gt16=False, max_paths=64):
         r.guards = list(I.path)
         r.effects = list(I.effects)
         r.nxt = list(AP.nxt)
+        r.reads = set(AP.reads)
         r.shift = list(AP.shifts)
         r.helpers = AP.helpers
         r.writes = {k: list(v) for k, v in AP.writers.items()}
